@@ -16,6 +16,10 @@ pub struct C02 {
     /// after the first checked window a better master with a slightly different clock takes over
     /// (scripted masters; the slave changes parent directly, Slave -> Slave)
     pub switch: bool,
+    /// non-default servo configuration and an oscillator whose frequency wanders (random walk):
+    /// not a C02 scenario (the bound is calibrated for the default servo) - run for the sake of C03
+    /// (no panic or overflow in either build profile) and of the C13 command monitor
+    pub servo_stress: bool,
     pub quick_runs: u64,
     pub thorough_runs: u64,
 }
@@ -147,7 +151,18 @@ impl Check for C02 {
         ss.quantum_ns = quantum;
         ss.ports = vec![ports.clone()];
         ss.bmca_phase_pm = ch.range(S_CFG, 1, 999);
+        if self.servo_stress {
+            ss.kalman.precision_hysteresis = *ch.pick(S_CFG, &[127u8, 16, 1, 2]);
+            ss.kalman.difference_estimation_boundary = *ch.pick(S_CFG, &[4usize, 1, 32]);
+            ss.kalman.statistical_estimation_boundary = *ch.pick(S_CFG, &[8usize, 2, 32]);
+            ss.kalman.deadzone = *ch.pick(S_CFG, &[0.0, 1.0, 2.0]);
+            ss.kalman.initial_wander = *ch.pick(S_CFG, &[1e-16, 1e-20, 1e-12]);
+        }
         let sn = w.add_node(ss, ch);
+        let wander_step_ppt: i64 = if self.servo_stress { *ch.pick(S_CFG, &[300_000i64, 1_000_000, 50_000]) } else { 0 };
+        if wander_step_ppt > 0 {
+            w.schedule_script(SEC, 300, 0, 0);
+        }
         if let Some(m) = &refm {
             m.start(&mut w, ch.range(S_CFG, 1, 999) as u128 * MS);
         }
@@ -196,6 +211,15 @@ impl Check for C02 {
             let stepped = w.step(ch, horizon.min(check_until));
             match stepped {
                 None => break,
+                Some(Stepped::Script { tag: 300, .. }) => {
+                    // the oscillator's frequency takes a random-walk step once a second
+                    let now = w.now();
+                    let cur = w.nodes[sn].clock.borrow().drift_ppt;
+                    let next = (cur + ch.irange(S_FAULT, -wander_step_ppt, wander_step_ppt)).clamp(-150_000_000, 150_000_000);
+                    w.nodes[sn].clock.borrow_mut().set_drift(now, next);
+                    w.out.fault("oscillator_frequency_random_walk_step");
+                    w.schedule_script(now + SEC, 300, 0, 0);
+                }
                 Some(Stepped::Script { tag, a, .. }) => {
                     if let Some(m) = refm.as_mut() {
                         m.on_script(&mut w, tag, a, ch);
